@@ -810,6 +810,15 @@ fn diff_payload(buf: &[u8], obs: &mut Obs) -> Result<usize, Fail> {
     Ok(multi)
 }
 
+/// raw-bytes entry points for the fuzz targets
+pub fn fuzz_payload(buf: &[u8], obs: &mut Obs) -> Result<usize, Fail> {
+    diff_payload(buf, obs)
+}
+
+pub fn fuzz_datagram(dg: &[u8], short_dcid_len: usize, obs: &mut Obs) -> Result<usize, Fail> {
+    diff_datagram(dg, short_dcid_len, obs)
+}
+
 // ---------------------------------------------------------------------------------------
 // sub-check `frame_values`
 
